@@ -196,7 +196,7 @@ var vc12Values = []string{
 	// escapes
 	`a\:b`, `a\ b`, `\/p\/`, `\/`, `a\*b`,
 	// control characters and runes that JSON must escape or pass through (inside quotes)
-	"\"x\x7fy\"", "\"a\vb\"", "\"t\tab\"", "\"<&>\"", "\"\U000e0001\"", "\"\u2028\"",
+	`"C:\t\*"`, `"/\d+/"`, "\"x\x7fy\"", "\"a\vb\"", "\"t\tab\"", "\"<&>\"", "\"\U000e0001\"", "\"\u2028\"",
 }
 
 var vc12Fields = []string{`a`, `f_1`, `héé`, `"a b"`, `7`, `a.b`, `w*`, `""`}
